@@ -1177,7 +1177,7 @@ pub fn run(args: &Args) {
         let _ = repro_length_loop(args, v.parse().expect("C13_REPRO_LENGTH=<u32>"));
         return;
     }
-    let mut sink = Sink::new("C13", &args.out, &["Model.Oov"], args.seed, &args.tier);
+    let mut sink = Sink::new("C13", &args.out, &["Model.Oov", "Model.OovBuffer"], args.seed, &args.tier);
     sink.shard_size = 40;
     sink.rule("generated char.def (24 code points incl. combining marks, skin-tone modifier, VS16, ZWJ, 4-byte emoji; natural or random class sets with several classes per character, class ALL, NOOOVBOW, NOOOVBOW2; classes without definition) x unk.def (0..3 definitions per class, invoke/group/length 0..80) x 1..3 providers in random order (MeCab, Simple, Regex with strict/relaxed boundaries, max length, debug, patterns with backtracking / alternation / empty match) x small random lexicon x texts (dictionary words, class runs, base+marks, lone marks, runs > 64); the 5 texts of a configuration form a SESSION over one reused InputBuffer, one StatefulTokenizer and one MorphemeList (collect_results), with single-character-run texts over the positions of the text two steps earlier and prefixes of the previous text, each step compared with the model and with new objects; class lengths include 3000000 and 4294967295; plus a 'segments' stream (every 5th configuration): the text is 2-4 runs of distinct characters, one or more of 58-88 characters, and 3-5 Regex providers (maxLength 100/400, strict/relaxed) each match a contiguous range of those runs, often ending where another pattern ends, mixed with MeCab/Simple -- so long candidates (>= 64, CreatedWords answers Maybe) with different ends start at one position and candidates from different positions share an end; each case observes the built InputBuffer, every provider through the trait at all (or sampled) offsets with several CreatedWords, and the lattice of a real tokenization; non-trivial = the text has a character with several classes or some provider call produced a candidate; distinct by generated Coq term");
     if let Some(p) = &args.replay {
@@ -1358,30 +1358,57 @@ fn normalized_forms_stream(sink: &mut Sink, rng: &mut Rng, args: &Args) {
             return;
         }
     };
-    // (original, normalised) pairs of single characters
-    let pairs: [(&str, &str); 10] = [("A", "a"), ("Ｂ", "b"), ("ｃ", "c"), ("d", "d"), ("Ｚ", "z"), ("１", "1"), ("7", "7"), ("京", "京"), ("Q", "q"), ("ｘ", "x")];
-    for _ in 0..args.n(60, 600) {
+    // pieces of original text; most are rewritten by the default input-text plugin (NFKC + lower-casing + rewrite.def), several
+    // with a change of length in characters and bytes: ㍿ -> 株式会社, ㌔ -> キロ, half-width kana + voicing mark -> one kana,
+    // base + combining mark -> one character, U+FDFA -> 18 characters, full-width / upper-case letters
+    let pieces: [&str; 18] = ["A", "Ｂ", "ｃ", "d", "Ｚ", "１", "7", "京", "Q", "ｘ", "㍿", "㌔", "ｶﾞ", "ﾊﾟ", "e\u{301}", "\u{FDFA}", "ア", "Ⅲ"];
+    for _ in 0..args.n(120, 1200) {
         let n = 1 + rng.below(6) as usize;
         let mut orig = String::new();
-        let mut norm = String::new();
         for _ in 0..n {
-            let (o, m) = rng.pick(&pairs);
-            orig.push_str(o);
-            norm.push_str(m);
+            let pc: &str = *rng.pick(&pieces[..]);
+            orig.push_str(pc);
         }
         let mut tok = StatefulTokenizer::create(&dict, false, Mode::C);
         tok.reset().push_str(&orig);
         let desc = json!({"kind": "c13-forms", "text": orig});
         let mut fails: Vec<String> = vec![];
         let mut morph_terms: Vec<String> = vec![];
+        let mut cur = String::new();
+        let mut m2o: Vec<usize> = vec![];
         match catch(|| tok.do_tokenize().map_err(|e| format!("{:?}", e))) {
             Ok(Ok(())) => {
-                let mut ml = MorphemeList::empty(&dict);
-                ml.collect_results(&mut tok).unwrap();
+                {
+                    let inp = tok.verif_input();
+                    cur = inp.current().to_string();
+                    m2o = (0..=cur.len()).map(|i| catch(|| inp.to_orig(i..i).start).unwrap_or(usize::MAX)).collect();
+                }
+                // the result nodes in the coordinates of the NORMALISED text, then the morphemes made from them
+                let mut input = Default::default();
+                let mut path = vec![];
+                let mut subset = Default::default();
+                tok.swap_result(&mut input, &mut path, &mut subset);
+                let nodes: Vec<(usize, usize, usize, usize, u32)> =
+                    path.iter().map(|n| (n.begin(), n.end(), n.begin_bytes(), n.end_bytes(), n.word_id().as_raw())).collect();
+                let ml = MorphemeList::from_components(&dict, input, path, subset);
                 let mut surf = String::new();
                 let mut forms = String::new();
-                for m in ml.iter() {
-                    morph_terms.push(morph_term(&m));
+                for (m, nd) in ml.iter().zip(nodes.iter()) {
+                    morph_terms.push(format!(
+                        "({}, ({}, {}, {}, {}), mkMV {} {} {} {} {} {} {})",
+                        cn(nd.4),
+                        cnat(nd.0),
+                        cnat(nd.1),
+                        cnat(nd.2),
+                        cnat(nd.3),
+                        cbool(m.is_oov()),
+                        cz(m.dictionary_id() as i64),
+                        cn(m.part_of_speech_id()),
+                        cbytes(m.surface().as_bytes()),
+                        cbytes(m.normalized_form().as_bytes()),
+                        cbytes(m.dictionary_form().as_bytes()),
+                        cbytes(m.reading_form().as_bytes())
+                    ));
                     surf.push_str(&m.surface());
                     if !m.is_oov() {
                         fails.push(format!("{:?}: morpheme {:?} is not OOV although the lexicon cannot match", orig, m.surface().to_string()));
@@ -1391,20 +1418,32 @@ fn normalized_forms_stream(sink: &mut Sink, rng: &mut Rng, args: &Args) {
                     if m.dictionary_form() != nf || m.reading_form() != nf {
                         fails.push(format!("{:?}: forms of an OOV morpheme differ: {:?} {:?} {:?}", orig, nf, m.dictionary_form(), m.reading_form()));
                     }
+                    if nd.3 > cur.len() || !cur.is_char_boundary(nd.2) || !cur.is_char_boundary(nd.3) || nf != cur[nd.2..nd.3] {
+                        fails.push(format!("{:?}: normalized form {:?} of the OOV node {}..{} is not the normalised text {:?} of its byte range {}..{}", orig, nf, nd.0, nd.1, cur, nd.2, nd.3));
+                    }
                     if m.dictionary_id() != -1 || m.part_of_speech().iter().zip(POS_POOL[3].iter()).any(|(a, b)| a != b) {
                         fails.push(format!("{:?}: OOV morpheme reports dictionary {} / part of speech {:?}", orig, m.dictionary_id(), m.part_of_speech()));
                     }
                     forms.push_str(&nf);
                 }
-                if surf != orig || forms != norm {
-                    fails.push(format!("{:?}: surfaces concatenate to {:?}, forms to {:?}, normalised text is {:?}", orig, surf, forms, norm));
+                if surf != orig || forms != cur {
+                    fails.push(format!("{:?}: surfaces concatenate to {:?}, forms to {:?}, normalised text is {:?}", orig, surf, forms, cur));
+                }
+                if cur.chars().count() != orig.chars().count() {
+                    sink.tag("forms_stream_length_changing_normalisation");
                 }
             }
             other => fails.push(format!("{:?}: tokenization failed: {:?}", orig, other)),
         }
-        // the model (Model/Oov.v: oov_morpheme) gets the original and the normalised text; characters map one to one
-        let term = format!("check_morphs {} {} {}", ctext(&orig), ctext(&norm), clist(morph_terms));
-        let id = sink.case(term, desc, orig != norm);
+        // the model (Model/OovBuffer.v: oov_morpheme_buf) gets the buffer state: original bytes, normalised bytes, offset map
+        let term = format!(
+            "check_morphs_buf {} {} {} {}",
+            cbytes(orig.as_bytes()),
+            cbytes(cur.as_bytes()),
+            clist(m2o.iter().map(|x| cn(*x as u64))),
+            clist(morph_terms)
+        );
+        let id = sink.case(term, desc, orig != cur);
         sink.tag("normalized_forms_stream");
         for f in fails {
             sink.fail(id, &f, "");
